@@ -280,3 +280,59 @@ func verifHarness_C20_readsplit(k int, n int, cut int) {
 	verifAssert(err != nil, "C20/S/then-error")
 	verifReach("C20/S")
 }
+
+// Wd: entries carrying dialect messages. A log written with a dialect from frames that hold DECODED messages (arbitrary
+// field values, v1 and v2) holds, per entry, the timestamp and the spec frame with the message's spec payload; read back
+// with the dialect, every entry carries the decoded message again (re-encoding it gives the same payload), header
+// fields kept. The frames' checksums are the ones they were given (the log writer does not fill them).
+func verifHarness_C20_dialect(version int, shape int) {
+	d := frame.VerifDialectRW()
+	rec := &frame.VerifRecWriter{}
+	w := &Writer{ByteWriter: rec, DialectRW: d}
+	verifAssert(w.Initialize() == nil, "C20/Wd/init")
+	msg, full, spec := frame.VerifMsg(shape, 2)
+	if sm, ok := msg.(*frame.MessageVerifString); ok {
+		// a NUL inside the string cuts it on the wire (canonical form, C04); this harness is about the log
+		for i := 0; i < len(sm.Name); i++ {
+			verifAssume(sm.Name[i] != 0)
+		}
+	}
+	seq, sys, comp := verifNondetU8(), verifNondetU8(), verifNondetU8()
+	var fr frame.Frame
+	var wire []byte
+	if version == 1 {
+		payload := full[:spec.SizeNormal()]
+		ck := frame.VerifSpecChecksumV1(seq, sys, comp, byte(spec.ID()), payload, spec.CRCExtra())
+		fr = &frame.V1Frame{SequenceNumber: seq, SystemID: sys, ComponentID: comp, Message: msg, Checksum: ck}
+		wire = frame.VerifSpecV1(seq, sys, comp, byte(spec.ID()), payload, ck)
+	} else {
+		payload := frame.VerifTruncate(full)
+		ck := frame.VerifSpecChecksumV2(0, 0, seq, sys, comp, spec.ID(), payload, spec.CRCExtra())
+		fr = &frame.V2Frame{SequenceNumber: seq, SystemID: sys, ComponentID: comp, Message: msg, Checksum: ck}
+		wire = frame.VerifSpecV2(0, 0, seq, sys, comp, spec.ID(), payload, ck, false, 0, 0, nil)
+	}
+	verifAssert(w.Write(&Entry{Time: time.Unix(1700000000, 123456000), Frame: fr}) == nil, "C20/Wd/write-ok")
+	file := rec.Buf()
+	verifAssert(len(file) == 8+len(wire) && verifEqBytes(file[8:], wire), "C20/Wd/file-holds-the-spec-frame-of-the-message")
+	verifAssert(verifBE64dec(file[:8]) == 1700000000123456, "C20/Wd/file-timestamp")
+	r := &Reader{ByteReader: frame.VerifChunkReader(file, nil), DialectRW: d}
+	verifAssert(r.Initialize() == nil, "C20/Wd/reader-init")
+	e, err := r.Read()
+	verifAssert(err == nil && e != nil, "C20/Wd/read-ok")
+	if err == nil && e != nil {
+		_, isRaw := e.Frame.GetMessage().(*message.MessageRaw)
+		verifAssert(!isRaw, "C20/Wd/entry-carries-the-decoded-message")
+		verifAssert(e.Frame.GetSequenceNumber() == seq && e.Frame.GetSystemID() == sys && e.Frame.GetComponentID() == comp, "C20/Wd/header-kept")
+		if !isRaw {
+			re := d.GetMessage(spec.ID()).Write(e.Frame.GetMessage(), version == 2)
+			want := frame.VerifTruncate(full)
+			if version == 1 {
+				want = full[:spec.SizeNormal()]
+			}
+			verifAssert(verifEqBytes(re.Payload, want), "C20/Wd/decoded-message-equal")
+		}
+	}
+	_, err = r.Read()
+	verifAssert(err != nil, "C20/Wd/then-error")
+	verifReach("C20/Wd")
+}
